@@ -13,21 +13,21 @@ CHECKS = {
     "C01": {
         "scenarios": [{"name": "replaymp"}, {"name": "payouts"}, {"name": "general", "tier": "thorough"}],
         "accept": ["replay:", "payouts:nondeterministic"],
-        "technique": "Lean: model is a function of the chain; regenerated list of every map range / sort / clock read in the sync path; order-independence lemmas for the payout set; kernel-checked witness that untied staking order mattered (repaired). Tie: N independent OS processes replay one tie-laden chain (top stakes tied, total above the cap), dumps compared; ConversionSupplySet.Payouts evaluated repeatedly on one request set; reference run in lock-step with the model",
+        "technique": "Lean: for EVERY permutation of the map iteration order the staking order (hence every payout txid and the dust) and ConversionSupplySet.Payouts (amount per txid, dust receiver) are the same (Proofs/OrderFree: insertion sort by (stake,address) is a function of the multiset; the least txid under SortTxIDS is unique); regenerated list of every map range / sort / clock read in the sync path; kernel-checked witness that untied staking order mattered (repaired). Tie: N independent OS processes replay one tie-laden chain whose conversions are priced with binding rolling averages, plus one replay computed by two processes in turn; dumps compared; Payouts evaluated repeatedly on one request set; reference run in lock-step with the model",
         "assumptions": [ORACLES, "multiFetch's worker interleaving is not modelled (entries are stored by index)"],
         "design_ref": "DESIGN.md §7 C01",
     },
     "C02": {
         "scenarios": [{"name": "crash"}],
         "accept": ["crash:", "replay:"],
-        "technique": "Lean: block all-or-nothing, height bump inside the transaction, a height cannot be applied twice (induction-free invariant over the whole block via the program logic), regenerated fact that no sync-path write uses the pool. Tie: real SIGKILL of a child daemon before every kind of SQL statement / COMMIT / after COMMIT, reopen, compare with the reference ledger, resume",
+        "technique": "Lean: the daemon as a process (Proofs/Process, NonInterference): along EVERY run of completed iterations, iterations cut short before COMMIT and restarts, heights are applied once each, in order, without gaps (InOrder invariant); cut-short iterations leave no trace at any height; below PIP-10 every kill and restart can be erased without changing the ledger or the sync height (relational program logic: nothing but the final bump reads pn_sync_version); block all-or-nothing; regenerated fact that no sync-path write uses the pool. Tie: real SIGKILL of a child daemon before every kind of SQL statement / COMMIT / after COMMIT, and before COMMIT of a snapshot block on a 40 000-holder ledger (pages spilled) under the daemon's own journal configuration; reopen, integrity check, compare with the reference ledger, resume",
         "assumptions": [SQLITE],
         "design_ref": "DESIGN.md §7 C02",
     },
     "C03": {
         "scenarios": [{"name": "admission"}, {"name": "bank"}, {"name": "general", "tier": "thorough"}],
         "accept": ["batch:", "nonneg:", "history-replay:balances-differ", "transfer:"],
-        "technique": "Lean: balance-table invariant (one row per address, no negative cell) proved for every primitive and lifted through the whole block transaction and every chain; rejected batch = no state change; accepted batch passed the funds check. Tie: bank-era chains with requests that are rejected when they execute (history replay = balances: a rejected batch contributes nothing); applyTransactionBatch (hook) on random 1-4 transaction batches vs the model; lock-step chains",
+        "technique": "Lean: balance-table invariant lifted through the whole block transaction and every chain; rejected batch = no state change; precheck_sound: if the cumulative in-memory pass accepts a batch, recordBatch never meets an insufficient balance (exact point-wise effect of every write on the input address, by induction over the batch, PEG requests deferred); accepted batch passed the funds check. Tie: bank-era chains with requests that are rejected when they execute; applyTransactionBatch (hook) on random 1-4 transaction batches vs the model; transfers whose outputs wrap uint64; lock-step chains; conservation monitor on executed transfers",
         "assumptions": ["per-asset column sums stay below 2^63 (no check in the code; SQLite would switch to REAL)"],
         "design_ref": "DESIGN.md §7 C03",
     },
@@ -41,7 +41,7 @@ CHECKS = {
     "C05": {
         "scenarios": [{"name": "sigmut"}, {"name": "dups"}],
         "accept": ["sigmut:", "liveness:", "dups:"],
-        "technique": "Lean: invalid entry is inert on arrival and on execution from holding, key type selected strictly above its activation, single input address, int64 bound. Tie: block with one validly signed transfer plus hundreds of mutants (bit flips, missing/duplicated/swapped signature pairs, other key, salt window) per key type and era, lock-step with the model, executions counted",
+        "technique": "Lean: debit_needs_signature for one block and every chain — a balance of address a can only decrease if a is the input address of a batch (in the block or in holding) that passes Validate at that height, or a special address at its adjustment height (structural theorem with call-site obligations, Proofs/Auth); invalid entry inert on arrival and from holding; key type selected strictly above its activation; single input address; int64 bound. Tie: one validly signed transfer plus hundreds of mutants per key type and era, lock-step, executions counted; repetition patterns followed by a valid entry",
         "assumptions": [ORACLES, "signature soundness (a verdict bit implies the key holder signed) is assumed of fat103 / the crypto libraries"],
         "design_ref": "DESIGN.md §7 C05",
     },
@@ -69,14 +69,14 @@ CHECKS = {
     "C09": {
         "scenarios": [{"name": "restart"}],
         "accept": ["restart:"],
-        "technique": "Lean: reload path is a function of the database, cache hit is idempotent, restart keeps the database; kernel-checked witness (1000 vs 1057) that the incremental and reload averages differ after an ungraded block. Tie: one chain synced continuously and with clean restarts at chosen heights, both in lock-step with the model, final ledgers compared",
+        "technique": "Lean: restart_independent_partial — below PIP-10 every run with any number of restarts (and kills) ends in the ledger and sync height of the run without them, for every chain and fork table; block outcome independent of the cache below PIP-10; reload path is a function of the database; kernel-checked witness (1000 vs 1057) that above PIP-10 the incremental and reload averages differ after an ungraded block. Tie: chains (with ungraded blocks; with assets quoted at 0 by the 2.0.2 band rule; era-crossing) synced continuously and with clean restarts, both in lock-step with the model, final ledgers compared",
         "assumptions": [SQLITE],
         "design_ref": "DESIGN.md §7 C09",
     },
     "C10": {
         "scenarios": [{"name": "faults"}],
         "accept": ["faults:"],
-        "technique": "Lean: a propagated failure commits nothing and a retry is deterministic; swallow keeps partial effects; regenerated lists of discarded / log-only / blank-assigned errors equal the known ones. Tie: every upstream request and (sampled) SQL statement of chosen blocks fails once on a copy of the pre-block database; the daemon's own retry must reach the fault-free ledger",
+        "technique": "Lean: propagated_faults_transparent — for every chain, every height and every finite plan of iterations cut short by a failed request or statement, the run ends in exactly the database of the fault-free run (the retry finds the cache at the height it asks for: getAverages is idempotent); a propagated failure commits nothing; swallow keeps partial effects; regenerated lists of discarded / log-only / blank-assigned errors equal the known ones. Tie: every upstream request and (sampled) SQL statement of chosen blocks — incl. the blocks right after PIP-10, where the averages are a consensus input — fails once on a copy of the pre-block database; the daemon's own retry must reach the fault-free ledger",
         "assumptions": [SQLITE, "faults are injected at the database/sql driver and at the HTTP transport"],
         "design_ref": "DESIGN.md §7 C10",
     },
@@ -90,7 +90,7 @@ CHECKS = {
     "C12": {
         "scenarios": [{"name": "inband"}, {"name": "assetrates"}, {"name": "ledger"}],
         "accept": ["inband:", "rates:", "assetrates:"],
-        "technique": "Lean: rate rows of other heights untouched by any block (relation lifted through the whole block transaction) hence immutable over every chain; no rates = no conversions; exact binary64 band rule; regenerated tolerances. Tie: band test at and around both edges vs Go floats; the real GetAssetRatesV0 / GetAssetRates on generated asset lists vs the model and the per-asset rule; lock-step chains with in-band / out-of-band SPR sets in every era",
+        "technique": "Lean: rates_recorded_exact — whenever a block's grading step makes rates available the rate table grows by exactly the rows of the selected asset list (winning OPR, filtered against the winning SPR by the era's band rule) with PEG priced by the phase; rates of other heights untouched by any block, for every chain; no rates => holding phase is the identity; band constants regenerated. Tie: exact binary64 band test vs Go at band edges; real GetAssetRates(V0) on generated winner lists; lock-step chains; monitors: PEG price by phase, no winners (independent grading) => no rate rows",
         "assumptions": [ORACLES, "a healthy Factom node serves each height once"],
         "design_ref": "DESIGN.md §7 C12",
     },
@@ -104,7 +104,7 @@ CHECKS = {
     "C14": {
         "scenarios": [{"name": "payouts"}, {"name": "ledger"}, {"name": "bank"}],
         "accept": ["staking:", "payouts:"],
-        "technique": "Lean: total paid = min(total stake, cap), exact when over, full when under, proportional shares, distinct payout keys, stake uses min(current, past) and ignores PEG. Tie: ConversionSupplySet vs the model on random sets with ties; lock-step chain over two snapshot heights with the staking specification recomputed from the snapshot tables",
+        "technique": "Lean: snapshot taken first in the transaction phase (current := balances before the block's conversions / transactions / rewards, past := previous current); nothing off the cadence; stakers come from the inner join (absent from either snapshot => not considered); total paid = min(total stake, cap), exact when over, full when under, proportional shares; stake uses min(current, past) and ignores PEG; staking order independent of map iteration (C01). Tie: ConversionSupplySet vs the model on random sets with ties; lock-step chain over two snapshot heights (one ungraded) with the staking specification recomputed from the snapshot tables",
         "assumptions": ["every per-asset valuation fits in int64 (otherwise the block fails: C08)"],
         "design_ref": "DESIGN.md §7 C14",
     },
@@ -118,7 +118,7 @@ CHECKS = {
     "C16": {
         "scenarios": [{"name": "payouts"}, {"name": "ledger"}, {"name": "bank"}],
         "accept": ["payouts:", "refund:", "bank:", "history-replay:balances-differ:bank-"],
-        "technique": "Lean: bank limit, exact when over, full if fits, proportional shares, same requesters, refund value inequality. Tie: ConversionSupplySet / Refund vs the model; bank-era lock-step chains with bank rows checked",
+        "technique": "Lean: bank pass of a block — PEG supply grows by exactly the sum of Payouts over the requests, which is at most the bank; bank row gets used = sum of yields, requested = total (recordPegRequests level, genuine PEG requests); Payouts: limit, full if fits, exact when over, proportional; refund: yield*pegRate + refund*srcRate <= input*srcRate. Tie: ConversionSupplySet / Refund vs the model; bank-era chains with requests below / around / above the bank, ungraded blocks, rejected requests",
         "assumptions": ["request keys are distinct (Go map keys)", "bank is a uint64"],
         "design_ref": "DESIGN.md §7 C16",
     },
@@ -146,7 +146,7 @@ CHECKS = {
     "C20": {
         "scenarios": [{"name": "amount"}, {"name": "codec"}],
         "accept": ["amount:", "codec:"],
-        "technique": "Lean: amount parser core exact-or-reject (iff), structural validation lemmas. Tie: cmd.FactoidToFactoshi vs the model and exact decimal arithmetic; fat2 decoder on canonical encodings and byte-level mutations vs an independent canonical-form checker, round trip, and the model's validAt",
+        "technique": "Lean: model of the four fat2 JSON decoders over a token tree (which key fills which field, null / duplicate / case-folded keys, ticker and amount decoding, expected-length accounting); soundness of the length accounting proved (accepted => exactly the expected keys, once each, on every level: accepted_only_in_canonical_form); input without a type refused (the repaired defect 85f24f7); amount parser exact or rejecting; decoded-level shape (one input address, int64, transfers xor conversion, input = sum). Tie: every generated document (canonical, 16 byte-level mutation kinds, 6 000 structure-level fuzzed trees per run) through fat2 and through the model's decoders on the token tree; independent canonical-form checker; re-encode round trip; cmd.FactoidToFactoshi vs the model",
         "assumptions": ["byte-level JSON acceptance (duplicate / unknown keys) is outside the Lean model: decided by the differential codec scenario only"],
         "design_ref": "DESIGN.md §7 C20",
     },
